@@ -106,6 +106,10 @@ func (eval Evaluator) AutomorphismHoisted(level int, ctIn *Ciphertext, c1DecompQ
 // Result NTT domain is returned according to the NTT flag of ctQP.
 func (eval Evaluator) AutomorphismHoistedLazy(levelQ int, ctIn *Ciphertext, c1DecompQP []ringqp.Poly, galEl uint64, ctQP *Element[ringqp.Poly]) (err error) {
 
+	if ctIn.Degree() != 1 {
+		return fmt.Errorf("cannot apply AutomorphismHoistedLazy: input Ciphertext must be of degree 1")
+	}
+
 	var evk *GaloisKey
 	if evk, err = eval.CheckAndGetGaloisKey(galEl); err != nil {
 		return fmt.Errorf("cannot apply AutomorphismHoistedLazy: %w", err)
